@@ -337,9 +337,12 @@ def rule_match(L, tok, word):
 class RuleIndex:
     """C08's rule as a lookup structure: candidates(tok) = indices of the words the rule accepts the token for"""
 
-    def __init__(self, L, words):
+    def __init__(self, L, words, code=False):
+        """code=True: the matcher's own comparison form (every byte >= 0x80 dropped in the accent-folding languages,
+        proved in Props/C08.find_iff_rule) instead of the property's (combining accents dropped); they differ by finding D6 only"""
         import bisect
         self.L = L
+        self.code = code
         self.bisect = bisect
         self.raw = {}
         for i, w in enumerate(words):
@@ -350,7 +353,9 @@ class RuleIndex:
                 u = w.decode('utf-8')
             except UnicodeDecodeError:
                 u = None
-            if u is not None and L['accents']:
+            if code:
+                u = bytes(b for b in w if b < 0x80 or not L['accents']).decode('latin-1')
+            elif u is not None and L['accents']:
                 u = strip_marks_u(u)
             self.keys.append(u)
         self.sorted = sorted((k, i) for i, k in enumerate(self.keys) if k is not None)
@@ -359,6 +364,17 @@ class RuleIndex:
     def candidates(self, tok):
         if not tok:
             return []
+        if self.code:
+            t = bytes(b for b in tok if b < 0x80 or not self.L['accents']).decode('latin-1')
+            lo = self.bisect.bisect_left(self.skeys, t)
+            out = []
+            j = lo
+            while j < len(self.skeys) and self.skeys[j].startswith(t):
+                k, i = self.sorted[j]
+                if k == t or (self.L['prefix'] and len(t) >= 4):
+                    out.append(i)
+                j += 1
+            return sorted(out)
         try:
             t0 = tok.decode('utf-8')
         except UnicodeDecodeError:
@@ -513,13 +529,24 @@ def suite_detect(ctx):
             toks[rnd.randrange(16)] = b''
         elif k < 0.65:
             toks[rnd.randrange(16)] = b'zzzz'
+        elif k < 0.8:
+            # abbreviations, and stray non-ASCII code points which the accent-folding matcher skips (first token included)
+            for j in ([0] if rnd.random() < 0.5 else []) + rnd.sample(range(16), 3):
+                t = toks[j]
+                if Ls.langs[li]['prefix'] and len(t) > 5 and rnd.random() < 0.5:
+                    t = t[:rnd.randrange(4, len(t))]
+                    while t and (t[-1] & 0xC0) == 0x80 and len(t) > 4:
+                        t = t[:-1]
+                if Ls.langs[li]['accents']:
+                    t = rnd.choice(['\ufeff', '\u65e5', '\u00b7']).encode() + t if rnd.random() < 0.6 else t + '\u0301'.encode()
+                toks[j] = t
         s.append('pdecode ' + ' '.join(hx(t) for t in toks))
         if rnd.random() < 0.3:
             s.append('pdecodex %d ' % rnd.randrange(Ls.n) + ' '.join(hx(t) for t in toks))
 
     def oracle(ops):
         bad = []
-        idx = {li: RuleIndex(Ls.langs[li], Ls.words(li)) for li in range(Ls.n)}
+        idx = {li: RuleIndex(Ls.langs[li], Ls.words(li), code=True) for li in range(Ls.n)}
         for op in ops:
             if not op.head.startswith('pdecode '):
                 continue
